@@ -56,6 +56,8 @@ type FuncSpec struct {
 	Uses      []string // optional axioms this function's proof uses
 	Assumes   []*Clause // explicit call-site assumptions (listed in the evidence)
 	Props     []*Clause // propagates
+	Tols      []*Clause // tolerates
+	Only      []*Clause // failsonly
 	Modifies  []string
 	HasMod    bool
 	LoopMods  map[int][]string
@@ -462,6 +464,50 @@ func (ss *SpecSet) parseFile(path string) error {
 				c.Args = append(c.Args, strings.TrimSpace(x))
 			}
 			cur.Props = append(cur.Props, c)
+		case "failsonly":
+			// failsonly RESULT from f, g [unless EXPR]: a non-nil RESULT implies that a listed callee returned a non-nil
+			// error on this path (or EXPR holds at the exit)
+			f := strings.SplitN(rest, " from ", 2)
+			if len(f) != 2 {
+				return fail("failsonly X from f, g [unless E]")
+			}
+			un := strings.SplitN(f[1], " unless ", 2)
+			etxt := "false"
+			if len(un) == 2 {
+				etxt = strings.TrimSpace(un[1])
+			}
+			c, err := mk("failsonly", etxt)
+			if err != nil {
+				return err
+			}
+			c.Text = rest
+			c.Ord = len(cur.Only) + 1
+			c.Args = append(c.Args, strings.TrimSpace(f[0]))
+			for _, x := range strings.Split(un[0], ",") {
+				c.Args = append(c.Args, strings.TrimSpace(x))
+			}
+			cur.Only = append(cur.Only, c)
+		case "tolerates":
+			// tolerates EXPR as RESULT from f, g
+			f := strings.SplitN(rest, " from ", 2)
+			g2 := []string{}
+			if len(f) == 2 {
+				g2 = strings.SplitN(f[0], " as ", 2)
+			}
+			if len(f) != 2 || len(g2) != 2 {
+				return fail("tolerates EXPR as RESULT from f, g")
+			}
+			c, err := mk("tolerates", strings.TrimSpace(g2[0]))
+			if err != nil {
+				return err
+			}
+			c.Text = rest
+			c.Ord = len(cur.Tols) + 1
+			c.Args = append(c.Args, strings.TrimSpace(g2[1]))
+			for _, x := range strings.Split(f[1], ",") {
+				c.Args = append(c.Args, strings.TrimSpace(x))
+			}
+			cur.Tols = append(cur.Tols, c)
 		case "specfun", "specfunrec":
 			// specfun [mode] name(a T, b T) R = body   |  specfun name(a T) R
 			sf, err := parseSpecFun(rest)
